@@ -66,7 +66,7 @@ func c07Spec() s1Spec {
 			"never a zero-weight victim, never in an unbounded cache; every reported Expiration must find the model deadline <= clock; " +
 			"non-trivial = the model total crossed the maximum at least once, or >= 20 operations with >= 3 weight-changing updates without ever crossing it",
 		Profile: &vh.Profile{Name: "c07", Executors: []int{vh.ExecInline}, BigWeights: true, MinLen: 1, MaxLen: 120, MaxKeys: 10,
-			Ops: with(vh.BaseOps(), "set", 20, "setmaximum", 4, "compute", 8, "cleanup", 3, "getifpresent", 10)},
+			Ops: with(vh.BaseOps(), "set", 20, "setmaximum", 4, "compute", 8, "cleanup", 3, "getifpresent", 10, "readburst", 3)}, // read bursts: a deadline extended by a read whose buffer event is dropped
 		Facets: vh.FJustify | vh.FPanic,
 		NonTrivial: func(r *vh.Runner) bool {
 			return r.St.CrossedMaximum || (r.St.Ops >= 20 && r.St.WeightChanges >= 3)
